@@ -385,6 +385,18 @@ fn make_tr(rng: &mut Rng, lens: Vec<usize>, bs: usize, class: &'static str, pre:
     Tr { data: rng.bytes(total), lens, name: String::new(), name_class: class, pre, ecu: key.0, lc: key.1, serial: key.2, bs }
 }
 
+/// the originals of one case are pairwise different, so that a saved file identifies its transfer (1-byte files could collide)
+fn distinct_data(trs: &mut [Tr], rng: &mut Rng) {
+    for i in 1..trs.len() {
+        while (0..i).any(|j| trs[j].data == trs[i].data) {
+            trs[i].data = rng.bytes(trs[i].data.len());
+            if trs[i].data.is_empty() {
+                break;
+            }
+        }
+    }
+}
+
 fn resized(rng: &mut Rng, orig: &[u8], len: usize) -> Vec<u8> {
     let mut v = orig.to_vec();
     if len <= v.len() {
@@ -453,6 +465,7 @@ fn main() {
                 if last < bs { bump!("last_package_shorter"); }
                 if bs == 1 { bump!("package_size_1"); }
             }
+            distinct_data(&mut trs, &mut rng);
             let mut wire = Vec::new();
             let mut noise_n = idx as u32;
             for w in scn["wire"].as_array().unwrap() {
@@ -527,7 +540,10 @@ fn main() {
             lens[n - 1] = last;
             let class = *rng.pick(&NAME_CLASSES);
             let pre = cfg.auto && rng.chance(1, 3);
-            let tr = make_tr(&mut rng, lens, bs, class, pre, keys_for(variant, ti));
+            let mut tr = make_tr(&mut rng, lens, bs, class, pre, keys_for(variant, ti));
+            while trs.iter().any(|o: &Tr| o.data == tr.data) {
+                tr.data = rng.bytes(tr.data.len()); // pairwise different originals (see distinct_data)
+            }
             let mut s: Vec<Item> = Vec::new();
             s.push(Item { t: ti + 1, owner: ti + 1, k: "FLST", pkg: 0, payload: vec![], orig: true, noise: 0 });
             for p in 1..=n {
